@@ -24,8 +24,32 @@ import (
 	"github.com/go-kid/ioc/util/framework_helper"
 )
 
-type RI interface{ RIm() }
+// RI is "sealed": next to its exported method it has unexported ones (more methods in total than any implementer
+// exports; reflect counts unexported methods for interfaces and exported ones only for concrete types)
+type RI interface {
+	RIm()
+	s1()
+	s2()
+	s3()
+	s4()
+	s5()
+	s6()
+	s7()
+	s8()
+}
+type sealedImpl struct{}
+
+func (sealedImpl) s1() {}
+func (sealedImpl) s2() {}
+func (sealedImpl) s3() {}
+func (sealedImpl) s4() {}
+func (sealedImpl) s5() {}
+func (sealedImpl) s6() {}
+func (sealedImpl) s7() {}
+func (sealedImpl) s8() {}
+
 type rbase struct {
+	sealedImpl
 	id         int
 	name, qual string
 }
@@ -49,8 +73,8 @@ type PO struct{ rbase }  // 13 RI, Mark() int
 type PDM struct{ rbase } // 14 RI Primary Mark()
 
 // field-less components: every zero-size allocation has the same address in Go
-type PZ1 struct{} // 15 RI
-type PZ2 struct{} // 16 RI Mark()
+type PZ1 struct{ sealedImpl } // 15 RI
+type PZ2 struct{ sealedImpl } // 16 RI Mark()
 
 func (*PZ1) RIm()  {}
 func (*PZ2) RIm()  {}
@@ -136,7 +160,7 @@ func (p *HQM) Qualifier() string { return p.qual }
 func (*HQM) Mark()               {}
 
 func mkProv(ty, id int, name, qual string) any {
-	b := rbase{id, name, qual}
+	b := rbase{id: id, name: name, qual: qual}
 	switch ty {
 	case 1:
 		return &PA{b}
@@ -364,7 +388,7 @@ func runResolve(sc *RScenario) []map[string]any {
 	}
 	if sc.Preset {
 		hv0 := reflect.ValueOf(comps[0]).Elem().FieldByName("hfields")
-		sent, sentPB := &PSent{rbase{99, "sentinel", ""}}, &PB{rbase{99, "sentinel", ""}}
+		sent, sentPB := &PSent{rbase{id: 99, name: "sentinel"}}, &PB{rbase{id: 99, name: "sentinel"}}
 		for _, fn := range fields {
 			fv := hv0.FieldByName(fn)
 			switch fn[len(fn)-1] {
